@@ -309,6 +309,8 @@ struct ThreadOut {
     digests: Vec<([u8; 32], u32, bool)>,
     digests_other: Vec<(String, u32, bool)>,
     ones: Vec<u64>,
+    /// how often each byte value occurs among the first 16 bytes of the salts
+    byte_values: Vec<u64>,
     n_salts: u64,
     n_decoys: u64,
     n_disclosures: u64,
@@ -320,7 +322,7 @@ struct ThreadOut {
 }
 
 fn worker(plan: Arc<Plan>, t: usize, keep_every: usize, start: Arc<Barrier>) -> ThreadOut {
-    let mut out = ThreadOut { ones: vec![0; 128], ..Default::default() };
+    let mut out = ThreadOut { ones: vec![0; 128], byte_values: vec![0; 256], ..Default::default() };
     let (tk, ta) = plan.thread_key(t);
     let mut shared = sd_jwt_rs::SDJWTIssuer::new(tk.encoding(), ta);
     start.wait();
@@ -346,6 +348,7 @@ fn worker(plan: Arc<Plan>, t: usize, keep_every: usize, start: Arc<Barrier>) -> 
             match salt_bytes(s) {
                 Ok(b) => {
                     for (k, byte) in b[..16].iter().enumerate() {
+                        out.byte_values[*byte as usize] += 1;
                         for bit in 0..8 {
                             if byte & (0x80 >> bit) != 0 {
                                 out.ones[k * 8 + bit] += 1;
@@ -403,6 +406,7 @@ struct Seen {
     digests: HashMap<[u8; 32], (u64, bool)>,
     digests_other: HashMap<String, (u64, bool)>,
     ones: Vec<u64>,
+    byte_values: Vec<u64>,
     n: u64,
     plans: Vec<Plan>,
 }
@@ -487,6 +491,9 @@ fn run_history(ctx: &mut Ctx, seen: &mut Seen, plan: Plan, keep_every: usize, la
         run_decoys += out.n_decoys;
         for b in 0..128 {
             run_ones[b] += out.ones[b];
+        }
+        for v in 0..256 {
+            seen.byte_values[v] += out.byte_values[v];
         }
         for p in out.pending {
             ctx.violation("oracle", p.stage, &p.what, p.case, p.observed, p.expected);
@@ -688,7 +695,7 @@ pub fn run(ctx: &mut Ctx, replay_path: Option<&str>) {
         ctx.notes.push("this is the deterministic-salt build: C14 is about the random-salt build and was not run".into());
         return;
     }
-    let mut seen = Seen { ones: vec![0; 128], ..Default::default() };
+    let mut seen = Seen { ones: vec![0; 128], byte_values: vec![0; 256], ..Default::default() };
     if let Some(path) = replay_path {
         replay(ctx, &mut seen, path);
         return;
@@ -742,6 +749,50 @@ pub fn run(ctx: &mut Ctx, replay_path: Option<&str>) {
             None => ctx.count("wide_credential.not_issued"),
         }
     }
+    // very many issuer INSTANCES in one process, one small credential each (whatever numbers or seeds the instances must not
+    // come round again): all their salts pairwise distinct, and distinct from everything seen in the runs above
+    #[cfg(not(feature = "mock"))]
+    {
+        let n = ctx.tier.pick(70_000, 200_000);
+        let claims = json!({"iss": "https://issuer.example", "exp": now + 100000, "a": "x", "b": {"c": 1}});
+        let mut all: HashMap<String, usize> = HashMap::new();
+        let mut repeated = vec![];
+        let mut failed = 0usize;
+        for i in 0..n {
+            let a = IssueArgs { claims: claims.clone(), strategy: Strategy::All, holder: None, decoy: i % 16 == 0, fmt: Fmt::Compact, key: KeyId::Hmac1, alg: Some("HS256".into()), queue: None };
+            let mut fresh = sd_jwt_rs::SDJWTIssuer::new(a.key.encoding(), a.alg.clone());
+            let res = issue_on(&mut fresh, &a);
+            if !res.out.is_ok() {
+                failed += 1;
+                continue;
+            }
+            for s in &res.salts {
+                if let Some(first) = all.insert(s.clone(), i) {
+                    if repeated.len() < 5 {
+                        repeated.push(json!({"salt": s, "instance": first, "again_in_instance": i}));
+                    }
+                }
+                if let Ok(b) = salt_bytes(s) {
+                    if b.len() == 16 && seen.salts16.contains_key(&u128::from_be_bytes(b[..16].try_into().unwrap())) && repeated.len() < 5 {
+                        repeated.push(json!({"salt": s, "instance": i, "also_in": "an earlier run"}));
+                    }
+                }
+            }
+        }
+        ctx.impl_calls += n;
+        ctx.evaluations += 1;
+        ctx.oracle_checks += 1;
+        ctx.count_n("many_instances.issuer_instances", n);
+        ctx.count_n("many_instances.salts", all.len());
+        let case = json!({"kind": "many-instances", "issuer_instances": n, "claims": claims, "strategy": "all"});
+        if !repeated.is_empty() {
+            ctx.violation("oracle", "history", &format!("a salt was drawn twice across {} issuer instances of one process", n), case, json!({"repeated": repeated}), json!("all salts pairwise distinct"));
+        } else if failed > 0 {
+            ctx.notes.push(format!("many-instances stream: {} issuances failed (C01/C07 judge issuance)", failed));
+        } else {
+            ctx.nontrivial(&case);
+        }
+    }
     // very large disclosures (an embedded scan or document): the digest is the SHA-256 of the WHOLE base64url text whatever its
     // length; block sizes of encoders and hashers (3, 4, 64 bytes, powers of two, 48 KiB) all fall inside these lengths
     #[cfg(not(feature = "mock"))]
@@ -769,6 +820,25 @@ pub fn run(ctx: &mut Ctx, replay_path: Option<&str>) {
                 }
                 None => ctx.count("large_disclosure.not_issued"),
             }
+        }
+    }
+    if seen.n >= MIN_SALTS_FOR_BIT_TEST {
+        // "random bytes": every byte value occurs about 16 n / 256 times among the salt bytes (binomial, 8 sigma as for the bits)
+        ctx.oracle_checks += 1;
+        let total = (seen.n * 16) as f64;
+        let (p, mut worst, mut worst_v) = (1.0 / 256.0, 0.0f64, 0usize);
+        let sigma = (total * p * (1.0 - p)).sqrt();
+        for v in 0..256 {
+            let z = ((seen.byte_values[v] as f64) - total * p).abs() / sigma;
+            if z > worst {
+                worst = z;
+                worst_v = v;
+            }
+        }
+        ctx.count_n("all_runs.byte_value_max_abs_z_x100", (worst * 100.0) as usize);
+        if worst > 8.0 {
+            ctx.violation("oracle", "history", &format!("byte value 0x{:02X} occurs {} times among the {} salt bytes of all runs: {:.1} sigma from 1/256", worst_v, seen.byte_values[worst_v], seen.n * 16, worst),
+                          json!({"kind": "run", "base": base, "run": 0, "threads": 4, "per_thread": 500}), json!({"byte_value": worst_v, "count": seen.byte_values[worst_v], "salt_bytes": seen.n * 16, "z": worst}), json!("every byte value within 8 sigma of 1/256"));
         }
     }
     if seen.n >= MIN_SALTS_FOR_BIT_TEST {
